@@ -41,8 +41,13 @@ LEVEL_TEXT = ("Coq theorems about the executable Gallina model coq/Model/TessCor
               "with fix_numbering equals the closed form, V = a*b, F = 2(a-1)(b-1), consecutive ids; [G] stored uv = (i*k/(su-1), j*k/(sv-1)) = the "
               "linspace parameter of the sample (over R) - the position itself is C01's surface evaluation, tied here by correspondence and the exact "
               "oracle; [G] the two triangles of a cell partition it; [G] OBJ/OFF indices of containers in range (offsets = prefix sums), OFF header "
-              "counts, container vertex ids consecutive, STL normal orthogonal to the facet edges. PARTIAL: trimmed tessellation - only the two cell "
-              "rules are proved (all corners inside => omitted; no trims => untrimmed fan); the 'within one sampling cell' claim, spline trims, "
+              "counts, container vertex ids consecutive, STL normal orthogonal to the facet edges. Trimmed tessellation (round 2, Proofs/WindingRect.v, TrimCells.v), cell "
+              "level: the winding test is constant on every rectangle no trim edge meets; a cell whose (tolerance-inflated) rectangle no trim "
+              "segment touches is either omitted entirely or kept as its two plain triangles according to the exact trimmed/not decision; a cell whose "
+              "corners are all trimmed contributes nothing; every vertex of every triangle emitted for a cell lies within the cell enlarged by the "
+              "snapping tolerance - so kept and omitted regions differ from the exact trimmed region only inside cells the trim boundary touches "
+              "('within one cell'); the original unconditional Definition is refuted for an unconstrained corner-shift tolerance and replaced by the "
+              "corrected statement.  NOT proved: a loop-level theorem for make_trim_mesh with its renumbering; spline trims (sampled to polylines), "
               "quads and the writers' text/binary encodings are tied by correspondence and checked by the exact oracle.")
 LEVEL_NOTE = ("Trusted: Coq 8.16.1 kernel incl. vm_compute (mesh_valid is a vm_compute proof); standard-library real-number axioms as printed by Print "
               "Assumptions (the nat theorems are closed under the global context); the model is tied to /repo by the sampled correspondence check; "
